@@ -95,6 +95,22 @@ def work(args):
         out['batch_le'] = [[int(b) for b in row] for row in B.reshape(len(out['cases']), -1)]
     except Exception as ex:
         out['batch_error'] = '%s: %s' % (type(ex).__name__, ex)
+    # (v) read every cached property of the object (d, k, n, the matrices, the masks: what a simulation's constructor and its
+    # result record do) and ask again: the answers must not have changed
+    for prop in ('n', 'k', 'd', 'stabilizer_matrix', 'logicals_x', 'logicals_z', 'is_css', 'x_indices', 'z_indices', 'Hx', 'Hz',
+                 'stabilizer_types', 'qubit_index', 'stabilizer_index', 'label', 'id', 'params'):
+        try:
+            getattr(code, prop)
+        except Exception:
+            pass
+    ap = []
+    for ci, o in enumerate(out['cases'][:25]):
+        o2 = observe(code, vec(n, o['x'], o['z']))
+        if o2 != o:
+            ap.append({'case': ci, 'x': o['x'], 'z': o['z'], 'before': {k_: o[k_] for k_ in ('cs', 'le', 'ile', 'ok')},
+                       'after': {k_: o2[k_] for k_ in ('cs', 'le', 'ile', 'ok')}})
+            break
+    out['after_props_diff'] = ap
     # (iii) the same residual error handed over in the other shapes the methods accept: dense (1, 2n), int64, csr row, and a
     # csr row with explicitly STORED zeros (what `total = correction + error; total.data %= 2` leaves behind)
     from scipy.sparse import csr_matrix as _csr
